@@ -95,7 +95,7 @@ Definition new_timer : node := mkNode [] [] false false None None 0 false [] 1.
 
 (** graph.go:189-200 handleRelease: the callback runs at once (go f()) if the node is released already *)
 Definition g_handle_rel (g : graph) (n : nat) (h : relh) : graph * bool :=
-  if n_rel (getn g n) then (setn g n (inc_cln (getn g n)), true) else (setn g n (set_hrel (getn g n) h), false).
+  if n_rel (getn g n) then (setn g n (inc_cln (set_hrel (getn g n) h)), true) else (setn g n (set_hrel (getn g n) h), false).
 
 (** graph.go:77-94, the critical section of [invalidate] on a node that is not yet invalid. *)
 Definition g_inv_mark (g : graph) (n : nat) : graph := setn g n (set_inv (getn g n)).
